@@ -428,7 +428,7 @@ def main(run):
             continue
         t2.append(coqgen.Case(f"t2_{c.name}", out=c.out, inp=c.inp, tactic="close23",
                               note={"mode": c.mode}, check_fidx=False))
-        if len(t2) >= (24 if quick else 160):
+        if len(t2) >= (16 if quick else 160):
             break
     failing = coqgen.emit_and_check(run, "C23", t2, shards=4 if quick else 8, timeout=800,
                                     extra_header=EXTRA_HEADER)
